@@ -36,6 +36,15 @@ Floating kernels (class KN, prelude Hdc/Gen/NumBase.lean + Hdc/PyNpT.lean) -> Hd
     external calls on compile-time constants (`sc.ndtri(1 - alpha / 2)` with the default `alpha = 0.05`) -> a named constant
     of the kernel's `extern_consts` table (`F.zcrit`), calls of other translated kernels, tuple results of mixed types,
     `elif`, `.size`.
+  instrumentation mode (`py2lean_num.SafeMixin` through the subclass `SafeKN`; kernels declared `safe=True, safe_mixin=SafeKN`:
+    mk_sens_slope -> Hdc/Gen/SafeMkSens.lean, mk_variance_s -> Hdc/Gen/SafeMkVariance.lean, namespace Hdc.Gen.Safe): the checks
+    of py2lean_num (every subscript `oob`, every slice `badSlice`, every scalar division by a non-literal `decide (k = 0)` /
+    `eqv e (nat 0)`, also inside `int(a / b)`) plus, for the constructs of KN,
+      * `np.ones(n)` / `np.zeros(n)` with an integer length -> `negLen n` (ValueError "negative dimensions"; Hdc/PySafeT.lean)
+      * `np.unique(a)`, `np.median(a)`, `np.nanmedian(a)` of a 1-d array NAME, `ndtri(<constant>)`: total (the median of an
+        empty array is NaN and a warning, not an exception) -> no check
+      * `x ** e`, `assert`, calls of other translated kernels (`calls=`), any other `np.` / `sc.` function, keywords:
+        Unsupported("safe: ...") (the Safe module is reported FAILED, the ordinary module is still written)
 Anything else raises Unsupported -> `FAILED <module>: reason`, exit 1.
 """
 import ast
@@ -623,6 +632,57 @@ class KN(base.K):
         return super().stmt(s, ind)
 
 
+class SafeKN(base.SafeMixin):
+    """`py2lean_num.SafeMixin` for the constructs `KN` adds (see the module docstring).  Every check is computed from the Python
+    AST; what is not understood raises Unsupported("safe: ...")."""
+
+    NP_TOTAL = {"unique": 1, "median": 1, "nanmedian": 1}      # total on a 1-d array: nothing to check
+    NP_ALLOC = ("ones", "zeros")                                # allocation: the length must not be negative
+    NP_BASE = ("round", "copy")                                 # constructs of py2lean_num: its own rules
+
+    def ck(self, e, out, g=()):
+        if isinstance(e, ast.BinOp) and isinstance(e.op, ast.Pow):
+            raise Unsupported("safe: `**` (a zero base with a negative exponent raises for Python floats)")
+        if isinstance(e, ast.Call):
+            if isinstance(e.func, ast.Name) and e.func.id in self.cfg.get("calls", {}):
+                raise Unsupported(f"safe: call of the translated kernel {e.func.id}")
+            f = e.func
+            if isinstance(f, ast.Attribute) and isinstance(f.value, ast.Name) and f.value.id in ("np", "sc"):
+                if f.attr in self.NP_BASE or (f.attr == "zeros" and not (len(e.args) == 1 and self.is_int_len(e.args[0]))):
+                    return super().ck(e, out, g)
+                if e.keywords:
+                    raise Unsupported(f"safe: keywords of np.{f.attr}")
+                if f.attr in self.NP_TOTAL:
+                    if len(e.args) != self.NP_TOTAL[f.attr] or not all(isinstance(a, ast.Name) and self.ty.get(a.id) == "arrnum" for a in e.args):
+                        raise Unsupported(f"safe: np.{f.attr} of something else than a 1-d array name")
+                    return
+                if f.attr in self.NP_ALLOC:
+                    if len(e.args) != 1 or not self.is_int_len(e.args[0]):
+                        raise Unsupported(f"safe: np.{f.attr} with a shape that is not an integer")
+                    n = e.args[0]
+                    self.ck(n, out, g)
+                    if isinstance(n, ast.Constant):
+                        if n.value < 0:
+                            out.append(self.guarded(g, "true"))
+                        return                                 # a non-negative literal length needs no check
+                    out.append(self.guarded(g, f"negLen {self.iexpr(n)}"))
+                    return
+                if f.attr == "ndtri" and len(e.args) == 1:
+                    self.const_eval(e.args[0])                  # a compile-time constant (else Unsupported)
+                    return
+                raise Unsupported(f"safe: np.{f.attr}")
+        return super().ck(e, out, g)
+
+    def is_int_len(self, a):
+        try:
+            return self.typeof(a) == "int" and not (isinstance(a, ast.Constant) and isinstance(a.value, bool))
+        except Unsupported:
+            return False
+
+
+SAFE_NOTE = ("Additional check of harness/py2lean_stats.py (SafeKN): `negLen n` for `np.ones(n)` / `np.zeros(n)` with a negative length "
+             "(Hdc/PySafeT.lean).\nNot instrumented (total): `np.unique`, `np.median`, `np.nanmedian` of a 1-d array, divisions by a non-zero literal.")
+
 MK_FILE = "hdc/algo/ops/stats.py"
 NUM_KERNELS = [
     # `isnan` is a parameter (the carrier has no NaN: the model reads a cell with `isnan` as missing); `x ** -0.5` -> rsqrt
@@ -634,14 +694,16 @@ NUM_KERNELS = [
          consts={"0.5": "F.half"}, intcast="F.ofInt", extra="(F : MKFns α)", ret=None, rty="Int × α", uses="",
          imports=["Hdc.PyNpT"], translator=KN),
     dict(name="mk_variance_s", module="NumMkVariance", file=MK_FILE, func="mk_variance_s", params=[("x", "arrnum")],
-         consts={}, intcast="F.ofInt", extra="(F : MKFns α)", ret=None, uses="", imports=["Hdc.PyNpT"], translator=KN),
+         consts={}, intcast="F.ofInt", extra="(F : MKFns α)", ret=None, uses="", imports=["Hdc.PyNpT"], translator=KN,
+         safe=True, safe_mixin=SafeKN, safe_imports=["Hdc.PySafeT"]),
     dict(name="mk_z_score", module="NumMkZ", file=MK_FILE, func="mk_z_score", params=[("s", "int"), ("vs", "num")],
          consts={}, intcast="F.ofInt", extra="(F : MKFns α)", ret=None, uses="", imports=["Hdc.PyNpT"], translator=KN),
     dict(name="mk_p_value", module="NumMkP", file=MK_FILE, func="mk_p_value", params=[("z", "num")], const_params={"alpha": 0.05},
          consts={"0.5": "F.half"}, extern_consts={"ndtri(0.975)": "F.zcrit"}, intcast="F.ofInt", extra="(F : MKFns α)",
          ret=None, rty="α × Bool", uses="", imports=["Hdc.PyNpT"], translator=KN),
     dict(name="mk_sens_slope", module="NumMkSens", file=MK_FILE, func="mk_sens_slope", params=[("x", "arrnum")],
-         consts={}, extra="", ret=None, rty="α × α", uses="[IntCast α]", imports=["Hdc.PyNpT"], translator=KN),
+         consts={}, extra="", ret=None, rty="α × α", uses="[IntCast α]", imports=["Hdc.PyNpT"], translator=KN,
+         safe=True, safe_mixin=SafeKN, safe_imports=["Hdc.PySafeT"]),
     dict(name="mann_kendall_trend_1d", module="NumMkTrend", file=MK_FILE, func="mann_kendall_trend_1d",
          params=[("x", "arrnum")], consts={}, intcast="F.ofInt", extra="(F : MKFns α)", ret=None, rty="α × α × α × Int",
          uses="[IntCast α]", translator=KN,
@@ -675,6 +737,9 @@ def main(argv=None):
                 print(f"FAILED Hdc.Gen.{module}: unsupported construct in {cfg['func']}: {e!r}")
                 rc = 1
     base.write_if_changed.__globals__["print"] = lambda *a, **k: print(*(str(x).replace("py2lean_num:", TOOL + ":") for x in a), **k)
+    for c in NUM_KERNELS:
+        if c.get("safe"):
+            c["safe_note"] = "\n" + SAFE_NOTE          # hook of py2lean_num.main: name the checks SafeKN adds in the header
     rc |= base.main(kernels=NUM_KERNELS, tool=TOOL)
     return rc
 
